@@ -198,8 +198,9 @@ class Negotiated:
         )
 
         if self.multisession:
-            sent_ms = sent_capa[Capability.CODE.MULTISESSION]
-            recv_ms = recv_capa[Capability.CODE.MULTISESSION]
+            # the session may have been agreed with the Cisco code point on both sides only
+            sent_ms = sent_capa.get(Capability.CODE.MULTISESSION, sent_capa.get(Capability.CODE.MULTISESSION_CISCO))
+            recv_ms = recv_capa.get(Capability.CODE.MULTISESSION, recv_capa.get(Capability.CODE.MULTISESSION_CISCO))
             sent_ms_capa: set[int] = set(sent_ms) if isinstance(sent_ms, MultiSession) else set()
             recv_ms_capa: set[int] = set(recv_ms) if isinstance(recv_ms, MultiSession) else set()
 
@@ -215,9 +216,9 @@ class Negotiated:
             # therefore we can not collide due to the way we generate the configuration
 
             for capa in sent_ms_capa:
-                # no need to check that the capability exists, we generated it
-                # checked it is what we sent and only send MULTIPROTOCOL
-                if sent_capa[capa] != recv_capa[capa]:
+                # we generated ours, the peer may not have sent its own at all (a KeyError here left
+                # Negotiated.received() untyped and the session was reset without a NOTIFICATION)
+                if sent_capa.get(capa, None) != recv_capa.get(capa, None):
                     self.multisession = (
                         2,
                         8,
